@@ -286,7 +286,7 @@ Qed.
 Lemma vec_equal_refl L v : vec_equal L v v = true.
 Proof.
   unfold vec_equal. destruct (_ && _ && _).
-  - destruct (vsize L v =? 0); [reflexivity|apply list_eqb_refl].
+  - rewrite Z.eqb_refl. cbn [negb]. destruct (vsize L v =? 0); [reflexivity|apply list_eqb_refl].
   - apply elems_equal_refl.
 Qed.
 
@@ -302,8 +302,8 @@ Lemma vec_equal_sym L v1 v2 : vec_equal L v1 v2 = vec_equal L v2 v1.
 Proof.
   unfold vec_equal. rewrite (list_eqb_sym (v_fixed v1)).
   destruct (forallb eqm L && padfree L && list_eqb (v_fixed v2) (v_fixed v1)).
-  - destruct (vsize L v1 =? 0) eqn:E1, (vsize L v2 =? 0) eqn:E2; try reflexivity.
-    apply list_eqb_sym.
+  - rewrite (Z.eqb_sym (vsize L v2)). destruct (vsize L v1 =? vsize L v2) eqn:E; cbn [negb]; [|reflexivity].
+    apply Z.eqb_eq in E. rewrite E. destruct (vsize L v2 =? 0); [reflexivity|apply list_eqb_sym].
   - apply elems_equal_sym.
 Qed.
 
@@ -319,6 +319,6 @@ Qed.
 Theorem vec_less_irrefl L v : L <> [] -> vec_less L v v = false.
 Proof.
   intros HL. unfold vec_less. destruct (_ && _ && _ && _).
-  - destruct (vsize L v =? 0); [reflexivity|apply lex_lt_irrefl].
+  - destruct (vsize L v =? 0); [reflexivity|]. destruct (dend L v =? 0); [apply Z.ltb_irrefl|apply lex_lt_irrefl].
   - apply elems_less_from_irrefl. exact HL.
 Qed.
